@@ -62,6 +62,59 @@ def scenario(e3, opnames, name):
     e3.standard(sc, eng, name, f"threads {opnames}, arbitrary u64/f64 arguments and initial value, all interleavings; {sc.stats}", props, timeout=300)
 
 
+def bucket_record_many(e3, n):
+    """record_many(v, n) on the standard histogram storage (AtomicBucket<f64>): the override if the storage has one, else the
+    trait's default; then a quiescent read must see v exactly n times. Block size 2, so n = 3 crosses a block boundary."""
+    import c05
+    from mirsmt import models_cb
+    from mirsmt.sym import Native, Fork, UNIT
+    P = _e3.program(["metrics-util", "metrics"])
+    m = {**models_cb.bucket_models(c05.BS), **models.BASE}
+    eng = sym.Engine(P, models=m, loop_bound=n + 2, await_fns=[r"::data_with$", r"::clear_with$"], max_paths=20000)
+    eng.loop_bounds = {r"::data_with$": n + 1, r"::push$": 3, r"::push_many$": n + 2}
+    eng.const_override = {"BLOCK_SIZE": bv(c05.BS)}
+    eng.merge_fns = [r"::push$", r"::push_many$", r"::data_with$"]
+    own = [b for b in P.by_last.get("record_many", []) if b.impl and b.impl[0] == "HistogramFn" and b.impl[1] == "AtomicBucket"]
+    dflt = [b for b in P.by_last.get("record_many", []) if not b.impl or b.impl[0] is None]
+    body = own[0] if own else [b for b in dflt if "HistogramFn" in b.name][0]
+    data_b = P.find("AtomicBucket", "data_with")
+    c0 = sym.Ctx(eng, 0)
+    eng.thread_names[0] = "setup"
+    bucket = c0.alloc("AtomicBucket", {(0,): ("ptr", z3.IntVal(0))})
+    eng.leaves[0] = [sym.Leaf(c0, "done")]
+    bp = Ptr(("obj", bucket))
+    v = z3.BitVec("v", 64)
+
+    def cb(eng_, ctx, f, args):
+        ptr, ln = args[0].data
+        base = ptr.path[:-1]
+        alts = []
+        for k in range(c05.BS + 1):
+            def do(c, k=k):
+                for i in range(k):
+                    x = c.mem_read(ptr.root[1], eng_.norm_path(base + (("idx", i),)), 64, False, "NA", "slot_read")
+                    c.observe("seen", value=x)
+                return UNIT
+            alts.append((ln == bv(k), do))
+        return Fork(alts)
+
+    def script():
+        yield ("call", body, [bp, v, bv(n)])
+        yield ("call", data_b, [bp, Native("callback", cb)])
+        return None
+    eng.run_script(1, f"record_many(v, {n}); data_with", script)
+    sc = conc.Scenario(eng, f"c04_bucket_record_many_{n}")
+    sc.thread_order(0, 1)
+    sc.build()
+    seen = c05.payloads(eng, "seen")
+    cnt = z3.Sum(*[z3.If(z3.And(e.guard, pay["value"] == v), 1, 0) for e, pay in seen]) if seen else z3.IntVal(0)
+    other = z3.Or(*[z3.And(e.guard, pay["value"] != v) for e, pay in seen]) if seen else z3.BoolVal(False)
+    props = [("record_many_delivers_exactly_n", f"after record_many(v, {n}) the storage does not hold v exactly {n} times", z3.Or(cnt != n, other), None),
+             ("no_panic", "record_many or the read can panic", sc.reach("panic"), None)]
+    e3.standard(sc, eng, f"c04_bucket_record_many_{n}", f"one thread: record_many(v, {n}) on an empty AtomicBucket<f64> ({'own override' if own else 'trait default'}), then data_with; block size {c05.BS}; v arbitrary; {sc.stats}",
+                props, timeout=300)
+
+
 SCEN_QUICK = [(["c_increment", "c_increment"], "c04_inc_inc"), (["c_increment", "c_absolute"], "c04_inc_abs"), (["c_absolute", "c_absolute"], "c04_abs_abs"),
               (["g_increment", "g_set"], "c04_ginc_set"), (["g_set", "g_set"], "c04_set_set"), (["g_increment", "g_decrement"], "c04_ginc_gdec")]
 SCEN_THOROUGH = [(["c_increment", "c_increment", "c_absolute"], "c04_inc_inc_abs"), (["g_increment", "g_increment"], "c04_ginc_ginc"),
@@ -75,6 +128,11 @@ def run(tier, seed, t0):
             scenario(e3, ops, nm)
         except sym.Unsupported as ex:
             e3.error(nm, "MIR->SMT encoding of metrics::atomics", ex)
+    for n in ([1] if tier == "quick" else [1, 2, 3]):
+        try:
+            bucket_record_many(e3, n)
+        except (sym.Unsupported, KeyError, IndexError) as ex:
+            e3.error(f"c04_bucket_record_many_{n}", "MIR->SMT encoding of record_many on AtomicBucket<f64>", ex)
     obs = list(e3.res.obligations)
     obs += kani.run_group("core", HARNESSES, tier, hooks=True)
     finish("C04", tier, seed, obs, t0, ASSUME + ["E3 callee models: " + ", ".join(sorted(e3.models))], sorted(e3.functions) + FUNCS_E1,
